@@ -399,6 +399,28 @@ var genScenarios = map[string]func(g *Gen) []scriptStep{
 			pullStep(sS2, 10), ackLeased(sS2, "Ack", 0, false), pullStep(sS2, 10),
 		}
 	},
+	// filters whose literals must survive verbatim (runs of blanks, a tab, parentheses), negated
+	// filters against attribute-less messages: one subscription per filter, then messages whose
+	// attributes tell the original literal from a mangled one (C07, C08, C17)
+	"filter-literals": func(g *Gen) []scriptStep {
+		fl := []string{`attributes.k = "a  b"`, "hasPrefix(attributes.k, \"x\ty\")", `attributes.x = "("`, `hasPrefix(attributes.y, "(555")`,
+			`NOT attributes:x`, `NOT hasPrefix(attributes.x, "v")`, `NOT (attributes:x OR attributes:y)`, `attributes.k != "a  b"`, `-attributes:k`, `attributes:"a b"`}
+		g.r.Shuffle(len(fl), func(i, j int) { fl[i], fl[j] = fl[j], fl[i] })
+		s := []scriptStep{opStep(&Op{Kind: "CreateTopic", Name: sT0})}
+		for i, f := range fl[:5] {
+			s = append(s, subStep(&SubReq{Name: fmt.Sprintf("projects/p/subscriptions/f%d", i), Topic: sT0, Filter: f}))
+		}
+		msg := func(attrs map[string]string) scriptStep {
+			return func(g *Gen, d *Dump, vnow int64) Action {
+				return Action{Op: &Op{Kind: "Publish", Name: sT0, Msgs: []PubMsg{{Data: []byte(`{"a":1}`), Attrs: attrs}}}}
+			}
+		}
+		s = append(s, msg(nil), msg(map[string]string{}), msg(map[string]string{"k": "a  b"}), msg(map[string]string{"k": "a b"}),
+			msg(map[string]string{"k": "x\ty1"}), msg(map[string]string{"k": "x y"}), msg(map[string]string{"x": "(", "y": "(5551234"}),
+			msg(map[string]string{"x": "v1", "a b": "1"}), opStep(&Op{Kind: "GetSub", Name: "projects/p/subscriptions/f0"}),
+			opStep(&Op{Kind: "GetSub", Name: "projects/p/subscriptions/f1"}), pullStep("projects/p/subscriptions/f0", 20), pullStep("projects/p/subscriptions/f2", 20))
+		return s
+	},
 	"ordered-replay": func(g *Gen) []scriptStep {
 		return []scriptStep{
 			opStep(&Op{Kind: "CreateTopic", Name: sT0}),
@@ -538,7 +560,7 @@ var genScenarios = map[string]func(g *Gen) []scriptStep{
 	},
 }
 
-var scenarioNames = []string{"ordered-replay", "ordered-prune", "nack-mixed-attempts", "dl-shared-target", "dl-deleted-topic", "dl-ordered-target", "dl-filtered-target", "snapshot-bystander", "seek-revive-late", "idle-expired-live", "filter-replaced", "ordered-chain", "lease-changes"}
+var scenarioNames = []string{"ordered-replay", "ordered-prune", "nack-mixed-attempts", "dl-shared-target", "filter-literals", "dl-deleted-topic", "dl-ordered-target", "dl-filtered-target", "snapshot-bystander", "seek-revive-late", "idle-expired-live", "filter-replaced", "ordered-chain", "lease-changes"}
 
 // scenariosFor lists the templates a generator profile may start with
 func scenariosFor(profile string) []string {
@@ -550,7 +572,7 @@ func scenariosFor(profile string) []string {
 	case "names":
 		return []string{"idle-expired-live"}
 	case "config":
-		return []string{"filter-replaced", "idle-expired-live", "config-reset-each-field", "config-reset-each-field"}
+		return []string{"filter-replaced", "idle-expired-live", "config-reset-each-field", "filter-literals"}
 	case "c15":
 		// no reviving seeks in the paired histories
 		return []string{"ordered-prune", "dl-shared-target", "dl-deleted-topic", "dl-ordered-target", "dl-filtered-target", "idle-expired-live", "filter-replaced"}
